@@ -13,8 +13,8 @@ PROPS = {
                  "the real code: C20_filtered_flow_counts (open) and C20_last_reports_own_period (repaired by 32cd4f9: Perf skips the days before the first reported period, model `perfSpan`, lemma perfSpan_filter, C20_before_first_period_skipped). PER SINGLE PERIOD of an arbitrary journal (Properties/C20Periods.lean, the other periods arbitrary): C20_period_line (the line under p.stop is the chained factor of exactly the days of p, minus one, and the only line with that date), "
                  "C20_zero_period_when_only_external_flows (every transaction of the period Plain = external flow / internal transfer / outside the portfolio, and the prices rest in the general sense PricesRestOn: every commodity of which an A/L account holds a non-zero quantity at the start of a day has the same normalised price after the day as before => the line is exactly 0; excluded are --commodity and a day with V0+inflow = 0, where the clause is false on the code: findings), "
                  "C20_zero_period_of_monitor (the same from the executable test calmPeriodB, sound by calmPeriodB_sound), C20_ratio_period_without_flows / C20_ratio_period_of_records (no boundary-crossing transaction in the period, non-zero start values => line = V(p.stop)/V(p.start-1)-1, V = valueAt = V1 of the last day not after the date). "
-                 "V1 IS THE VALUED BALANCE (Properties/C20Balance.lean): C20_values_are_valued_balance, C20_v1_is_valued_balance, C20_weights_are_shares_of_valued_balance: over the same list of days the balance pipeline (Balance.run: check, ComputePrices, Valuate, Filter, CloseAccounts, Query) succeeds whenever the portfolio pipeline does and for every commodity c and column date D, V1(D)(c) = sum of the report inserts on A/L accounts, commodity c, columns <= D (same -v/--account/--commodity, no -m/--remap on the balance, days up to D inside the balance window or nothing booked yet). "
-                 "NOT mechanised: the float64 arithmetic; that the additional empty days the two commands register before Build (period ends vs period starts) change neither pipeline's figures, and the rendering of the inserts into report cells (both covered by the comparison with the real `knut balance -v V --csv -s .` on every case). Tie: `portfolio returns`, `portfolio weights "
+                 "V1 IS THE VALUED BALANCE (Properties/C20Balance.lean): C20_values_are_valued_balance, C20_v1_is_valued_balance, C20_weights_are_shares_of_valued_balance: over the same list of days the balance pipeline (Balance.run: check, ComputePrices, Valuate, Filter, CloseAccounts, Query) succeeds whenever the portfolio pipeline does and for every commodity c and column date D, V1(D)(c) = sum of the report inserts on A/L accounts, commodity c, columns <= D (same -v/--account/--commodity, no -m/--remap on the balance, days up to D inside the balance window or nothing booked yet); C20_command_values_are_valued_balance, C20_command_weights_are_shares_of_valued_balance: the same for the models of the two COMMANDS over one journal (setup+perfFrom vs BalanceCmd.entries; they register different empty days before Build: an empty day is a no-op of the portfolio pipeline, and the portfolio pipeline accepts every day list the balance pipeline accepts), balance without a --from after the first transaction. "
+                 "NOT mechanised: the float64 arithmetic; the rendering of the balance inserts into report cells (C01/C06 material; compared with the real `knut balance -v V --csv -s .` on every case). Tie: `portfolio returns`, `portfolio weights "
                  "--csv` (+ text rendering for the tree depth) and `balance -v` run as subprocesses; returns/weights compared with the exact model after rounding to the printed digits (1-2 units).",
         "note": "Trusted: Lean kernel; axioms propext, Classical.choice, Quot.sound; float64 vs exact arithmetic bounded only by the per-case tolerance comparison; `Commodity.IsCurrency` is never "
                 "set by the CLI (pickTargets returns the annotation's list); sequential pipeline semantics (C19); yaml/regexp/cobra; sibling order under the weighted sort is compared as a set "
@@ -27,7 +27,7 @@ PROPS = {
                 "class = (stream, outcomes, flag signature, size bucket).",
         "assumptions": ["exact rational arithmetic in place of float64 (outputs compared after rounding to the printed digits with 1-2 units tolerance)",
                         "C20_zero_period_when_only_external_flows: no --commodity, V0+inflow != 0 on the days of the period (both are points where the clause fails on the code: known findings); C20_ratio_period_without_flows: non-zero start value on every day of the period",
-                        "C20_values_are_valued_balance: both pipelines over the same list of days; same -v/--account/--commodity, no -m/--remap on the balance; D a column of the balance report; days up to D inside the balance window or before the first booking"],
+                        "C20_command_values_are_valued_balance: both commands succeed; same -v/--account/--commodity, no -m/--remap on the balance, no --from of the balance after the first transaction; D a column of the balance report (pipeline-level form: same list of days, days up to D inside the balance window or before the first booking)"],
         "trusted": ["known findings: returns-commodity-filter-counts-filtered-flows, returns-meaningless-when-start-value-plus-inflow-vanishes"],
     },
     "C16": {
@@ -115,7 +115,7 @@ PROPS = {
     "C09": {
         "lean": ["Knut.Properties.C09", "Knut.Properties.C09Decimal", "Knut.Properties.C09Text", "Knut.Properties.C09Journal"],
         "level": "proof",
-        "claim": "Proof (all three clauses, for every printable journal, on the model of the commands for a journal that is one file) + full correspondence. Properties/C09Journal.lean: C09_print_accepted (the printed text loads and the checker gives the reloaded journal the verdict of the original), C09_print_fixpoint / C09_print_rejected (knut print on the printed text of an accepted printable journal writes that text; a rejected one stays rejected), C09_print_idempotent(_bytes) (print is idempotent on its own output), C09_reports_equal (knut balance under ANY flag vector, valued or not, no restriction on price directives, gives the same bytes or fails alike on the directives loaded from the printed text and on the directives the journal was built from), C09_verdict_equal. Printable (PrintableDir / PrintableJournal, decidable) = what the journal syntax can carry: dates 0000..9999, names of Unicode letters/digits, decimal amounts, assertions with at least one balance, descriptions without a double quote, transactions as transaction.Create builds them. Open: that every directive the loader returns from an arbitrary text is printable is proved for the booking normal form only (C09_text_loaded_normal_form), the field-level converse (scanner classes => PrintableDir) is not mechanised; include trees are outside printFile (C05 covers layout independence). Proved (all bookings, all amounts): C09_booking_normal_form (rebuilding the booking that print writes from the debit-side posting yields "
+        "claim": "Proof (all three clauses, for every printable journal, on the model of the commands for a journal that is one file) + full correspondence. Properties/C09Journal.lean: C09_print_accepted (the printed text loads and the checker gives the reloaded journal the verdict of the original), C09_print_fixpoint / C09_print_rejected (knut print on the printed text of an accepted printable journal writes that text; a rejected one stays rejected), C09_print_idempotent(_bytes) (print is idempotent on its own output), C09_reports_equal (knut balance under ANY flag vector, valued or not, no restriction on price directives, gives the same bytes or fails alike on the directives loaded from the printed text and on the directives the journal was built from), C09_verdict_equal. Printable (PrintableDir / PrintableJournal, decidable) = what the journal syntax can carry: dates 0000..9999, names of Unicode letters/digits, decimal amounts, assertions with at least one balance, descriptions without a double quote, transactions as transaction.Create builds them. UNCONDITIONAL for texts: C09_loaded_printable (every directive the loader returns from ANY byte string is PrintableDir: the parser's soundness gives field tokens of the right lexical classes, time.Parse / NewFromString / the registry / transaction.Create incl. @accrue expansion give the rest; Proofs/PrintSound.lean), hence C09_print_idempotent: for EVERY input text, if knut print succeeds on it then knut print on its output writes the same bytes; C09_file_reports_equal: check verdict and every balance report (any flags) of the printed file equal those of the input file. Open: include trees are outside printFile (one file; C05 covers layout independence); the second elaboration model of Model/Commands.lean (Cmd.runPrint, used by C14) is not linked to FromSyntax.loadText by a theorem. Proved (all bookings, all amounts): C09_booking_normal_form (rebuilding the booking that print writes from the debit-side posting yields "
                  "the identical posting pair), C09_printed_quantity_nonneg, C09_reprint_same_line, C09_targets_line. Properties/C09Decimal.lean: C09_dec_scaled_roundtrip, C09_dec_string_roundtrip (parseDec (showDec r) = r for every decimal rational), C09_dec_string_shortest, "
                  "closure of decimals under +, x, negation. Properties/C09Text.lean (text level, all inputs): C09_text_open, C09_text_close, C09_text_price, C09_text_assertion, C09_text_transaction (a printed open/close/price/single- or multi-balance assertion/transaction - any padding, @performance targets, negative bookings via the booking normal form, description without double quote - of printable fields - any Unicode letters/digits, dates 0000..9999, decimal amounts - is loaded back by parser + elaboration as exactly that directive), C09_text_items (a rendering of items parses and loads to the elaboration of their field views), C09_text_decode (UTF-8 decoding of a Lean string inverts utf8EncodeChar, every Char). WHOLE JOURNALS: C09_text_journal_fixpoint - for every printable journal j (PrintableJournal, decidable: days in strictly increasing date order, none empty, every directive under its own date and printable) the text journal.Print writes loads back (parser model, elaboration, transaction.Create) to exactly the directives of j day by day in print order, journal.Builder regroups them into the days of j with the transactions in journal.Sort order, and printing that journal reproduces the text byte for byte; C09_sort_idempotent (transaction.Compare is a total preorder, Std.TransCmp); the hypothesis is what the builder and transaction.Create produce: C09_text_built_shape (every built journal is sorted, without empty days, directives under their own date), C09_text_built_printable, C09_text_printed_perm (the printed directives are a permutation of the directives the journal was built from), C09_text_created_normal_form / C09_text_loaded_normal_form (every transaction Create / the loader returns is in booking normal form, with or without @accrue); exJournal (3 days, all directive kinds, decided printable; the real binary reproduces its text). The printer's quote replacement is JournalPrinter.descText (character-wise), the identity on descriptions without a double quote (descText_id). The same clauses are also decided on every run on the REAL binary: `knut print` output is "
                  "compared byte for byte with the Lean model of journal.Print, the printed journal is fed back to `knut print` (must be accepted and reproduce itself byte for byte) and "
@@ -216,7 +216,7 @@ PROPS = {
         "lean": ["Knut.Properties.C08"],
         "level": "proof",
         "claim": "Lean theorems for ALL byte strings over the models of lib/syntax/parser, lib/syntax/printer (extract the fields, then render; same format strings, fmt padding counted in runes) and formatRunner.formatFile: C08_unparseable_untouched; C08_format_total (formatting a parsed file never violates a slice bound); C08_gaps_verbatim (output = the input's own gap slices interleaved with the re-rendered directives); C08_reparse_same_fields (the output parses, to the same number and kinds of directives with byte-identical dates, accounts, amounts, commodities, descriptions/paths, @accrue fields and @performance targets, annotation order normalised; the gaps of the output are the gaps of the input); C08_idempotent (format of the output is the output); C08_command (the disjunction for the command). All stages closed (open/close/price/include/single-line assertion, transactions with both addons in any order, multi-line assertions incl. the one-balance form); no _partial theorem remains. Proof: token-level grammar of every field with soundness and completeness of each parser function, decomposition of a successful ParseFile run into items, replay of the main loop on the rendered tokens, UTF-8 self-delimitation for re-decoding. Tie: syntax.FormatFile in-process and `knut format` on temp files are compared byte for byte with the model; the Lean predicate formatOK (same directives and fields by semFlat incl. macro-account kinds, gaps byte for byte) is evaluated on the two real trees; reparse and format-twice are checked on the real code for every case; unparseable files are checked untouched through the CLI.",
-        "note": "The theorems compare typed field views (viewDirective); the monitor compares the untyped semFlat of the dumped trees (which also carries the macro-account kind) - the two formalisations of \"same fields\" are not proved equivalent. Trusted: Lean kernel; axioms propext, Classical.choice, Quot.sound; fmt padding (%-*s, %10s count runes) and strings.Join as modelled (compared byte for byte); "
+        "note": "The theorems compare typed field views (viewDirective); the monitor compares the untyped semFlat of the dumped trees (which also carries the macro-account kind) - the two formalisations of \"same fields\" are proved equivalent on parsed files (C08_monitor_iff: formatOK on the two trees iff views and gaps agree; C08_monitor_sound: formatOK holds of the model; Proofs/SyntaxSem.lean: for a tree the parser returned the account kind and the annotation nodes are functions of the field bytes, semFlat = semFileV of the views, semFileV injective). Trusted: Lean kernel; axioms propext, Classical.choice, Quot.sound; fmt padding (%-*s, %10s count runes) and strings.Join as modelled (compared byte for byte); "
                 "atomic.WriteFile is C18's subject; cobra argument handling and multierr are glue (exit status compared).",
         "rule": "streams: corpus (repository journals); journal (grammar-based layouts: tabs, CRLF, trailing blanks, multi-line descriptions, Unicode account names and digits, "
                 "both addon orders, multi-line assertions, missing final newline); stress (layouts the formatter must normalise: amounts wider than 10, one-balance multi-line "
